@@ -93,7 +93,11 @@ def get_text_from(path, encoding=None) -> str:
     except TypeError:
         # Not an os.PathLike, maybe it is an already-opened file object
         if path.readable():
-            position = path.tell()
+            try:
+                position = path.tell()
+            except OSError:
+                # An unseekable stream, like a pipe on standard input.
+                position = None
             try:
                 s = path.read()
                 if isinstance(s, bytes):
@@ -111,6 +115,8 @@ def get_text_from(path, encoding=None) -> str:
             except UnicodeDecodeError:
                 # All of the bytes weren't decodeable, maybe the initial
                 # sequence is (as above)?
+                if position is None:
+                    raise
                 path.seek(position)  # Reset after the previous .read():
                 # A text stream decodes a whole chunk at once, so read the
                 # bytes underneath it, if there are any.
